@@ -223,6 +223,23 @@ def main():
             else:
                 violations.append(({"name": v["name"]}, path, ""))
 
+    # background lemmas (pure mathematics) in Lean: thorough tier only (cold start of Mathlib takes minutes)
+    lean_info = None
+    if prop.get("lean"):
+        if a.tier == "thorough":
+            t1 = time.time()
+            try:
+                p = subprocess.run(["lean", os.path.join(HERE, "lean", "Background.lean")], capture_output=True, text=True,
+                                   timeout=1800)
+                ok = p.returncode == 0 and "error" not in (p.stdout + p.stderr)
+                lean_info = {"checked": True, "ok": ok, "seconds": round(time.time() - t1, 1), "output": (p.stdout + p.stderr)[-500:]}
+                if not ok:
+                    errors.append("lean/Background.lean does not check: " + (p.stdout + p.stderr)[-300:])
+            except Exception as e:
+                lean_info = {"checked": False, "error": repr(e)}
+        else:
+            lean_info = {"checked": False, "note": "lean/Background.lean is re-checked in the thorough tier only"}
+
     n_ob = len(all_obs)
     n_proved = sum(1 for o in all_obs if o["status"] == "PROVED")
     wall = time.time() - t0
@@ -264,6 +281,7 @@ def main():
         "known_findings_hit": [{"finding": kf["id"], "obligation": ob["name"]} for kf, ob in known_hits],
         "samples": [o["name"] + " : " + o["status"] + " by " + str(o.get("backend")) for o in all_obs[:12]],
         "bounded_standins": rt_results,
+        "lean_background": lean_info,
     }
     ev_eval = sum(r.get("evaluations", 0) for r in rt_results)
     if rt_results:
